@@ -210,20 +210,21 @@ Definition extend2 (st : cstate) (epoch caller provider : Z) (ds : list edecl) :
   Ok {| vr := vr st; sectors := ss; ctrl := ctrl st |}.
 
 (* ---- ProveCommitSectors3 of one pre-committed sector whose pieces are all verified ---- *)
-Definition onboard (st : cstate) (epoch provider n expiry : Z) (cs : list aclaim) : R cstate :=
+Definition onboard (st : cstate) (epoch provider n expiry : Z) (cs : list aclaim)
+  : R (cstate * list event) :=
   match sectors st !! (provider, n) with
   | Some _ => Err ILLEGAL_ARGUMENT
   | None =>
       let? tup := claim_allocations (vr st) epoch provider
                     [{| sg_sector := n; sg_expiry := expiry; sg_claims := cs |}] true in
-      let '(v', _, _) := tup in
+      let '(v', _, ev) := tup in
       let space := sumZ (map ac_size cs) in
-      Ok {| vr := v';
+      Ok ({| vr := v';
             sectors := <[ (provider, n) :=
                           {| s_activation := epoch; s_expiration := expiry; s_power_base := epoch;
                              s_dweight := 0; s_vweight := space * (expiry - epoch); s_simple := true;
                              s_terminated := false; s_backing := map ac_id cs |} ]> (sectors st);
-            ctrl := ctrl st |}
+            ctrl := ctrl st |}, ev)
   end.
 
 Definition terminate (st : cstate) (caller provider n : Z) (mutable : bool) : R cstate :=
@@ -232,6 +233,7 @@ Definition terminate (st : cstate) (caller provider n : Z) (mutable : bool) : R 
   match sectors st !! (provider, n) with
   | None => Err NOT_FOUND
   | Some s =>
+      if s_terminated s then Err ILLEGAL_ARGUMENT else   (* "can only terminate live sectors" *)
       Ok {| vr := vr st;
             sectors := <[ (provider, n) :=
                           {| s_activation := s_activation s; s_expiration := s_expiration s;
@@ -251,7 +253,10 @@ Definition cstep (st : cstate) (o : cop) : cstate * out :=
   match o with
   | Vr x => let '(v', r) := step (vr st) x in ({| vr := v'; sectors := sectors st; ctrl := ctrl st |}, r)
   | Onboard e p n x cs =>
-      match onboard st e p n x cs with Ok st' => (st', fail OK) | Err c => (st, fail c) end
+      match onboard st e p n x cs with
+      | Ok (st', ev) => (st', {| code := OK; ret := []; evs := ev |})
+      | Err c => (st, fail c)
+      end
   | Extend2 e c p ds =>
       match extend2 st e c p ds with Ok st' => (st', fail OK) | Err c => (st, fail c) end
   | Terminate _ c p n mu =>
